@@ -133,6 +133,7 @@ def make_owner(cfg, owner, sid, did, pid, own=False):
             object.__getattribute__(self, "__dict__").pop("_p", None)
 
     kw = dict(overridable=bool(ov), cache=bool(ca), allow_attribute_error=bool(ae))
+    owner, _, layout = owner.partition("+")
     if owner.endswith("_inval"):
         kw["invalidated_by"] = ["x"]
     prop = spec_property(fget if fg else None, **kw)
@@ -140,7 +141,7 @@ def make_owner(cfg, owner, sid, did, pid, own=False):
         prop = prop.setter(fset)
     if fd:
         prop = prop.deleter(fdel)
-    ns = {"p": prop}
+    ns = {}
     if owner.startswith("managed"):
         ns["__annotations__"] = {"p": int}
         if pid == 1:
@@ -156,9 +157,39 @@ def make_owner(cfg, owner, sid, did, pid, own=False):
     elif owner != "plain":
         ns["__annotations__"] = {"y": int}
         ns["y"] = 0
-    cls = type("Owner", (), ns)
-    if owner != "plain":
-        cls = spec_class(cls)
+    # layout (round G, seeded change C12-G1): WHERE the descriptor is defined relative to the
+    # class that manages the attribute (annotation + preparer) and to the class of the instance
+    #   ""         one class defines and manages (all earlier rounds)
+    #   "mixin"    defined on a plain base, managed only by the spec subclass `Owner`
+    #   "parent"   defined on a parent spec class that does NOT manage it, managed by the spec subclass
+    #   "sub"      defined and managed by a spec class, the instance is of a spec subclass of it
+    #   "plainsub" same, the instance is of a plain subclass
+    #   "deep"     plain mix-in <- spec parent managing it <- spec subclass (instance)
+    # the expected behaviour (Coq model / specification) is that of the owner kind in every layout:
+    # what counts is the spec metadata of the INSTANCE's class.
+    if layout in ("", "sub", "plainsub"):
+        ns["p"] = prop
+        cls = type("Owner", (), ns)
+        if owner != "plain":
+            cls = spec_class(cls)
+        if layout == "sub":
+            cls = spec_class(type("SubOwner", (cls,), {"__annotations__": {"z": int}, "z": 0})) if owner != "plain" else type("SubOwner", (cls,), {})
+        elif layout == "plainsub":
+            cls = type("PlainSubOwner", (cls,), {})
+    elif layout in ("mixin", "deep"):
+        base = type("Mixin", (), {"p": prop})
+        cls = type("Owner", (base,), ns)
+        if owner != "plain":
+            cls = spec_class(cls)
+        if layout == "deep":
+            cls = spec_class(type("SubOwner", (cls,), {"__annotations__": {"z": int}, "z": 0})) if owner != "plain" else type("SubOwner", (cls,), {})
+    elif layout == "parent":
+        base = spec_class(type("Parent", (), {"p": prop, "__annotations__": {"z": int}, "z": 0}))
+        cls = type("Owner", (base,), ns)
+        if owner != "plain":
+            cls = spec_class(cls)
+    else:
+        raise ValueError(layout)
     _owner_cache[key] = cls
     return cls
 
@@ -172,7 +203,8 @@ def run_sp(case, own=False):
     cfg, owner, sid, did, pid, x0, ops = case
     cls = make_owner(cfg, owner, sid, did, pid, own)
     obj = cls()
-    class_read_ok = cls.p is cls.__dict__["p"]   # Owner.p (instance is None) is the descriptor itself
+    import inspect
+    class_read_ok = cls.p is inspect.getattr_static(cls, "p")   # Owner.p (instance is None) is the descriptor itself
     d = object.__getattribute__(obj, "__dict__")
     d["x"] = x0
     d["calls"] = 0
@@ -195,7 +227,7 @@ def run_sp(case, own=False):
                 obj.x = op[1]
                 return [0, 0]
             out = outcome(f)
-        extra = sorted(k for k in d if k not in ("p", "x", "_p", "calls", "y"))
+        extra = sorted(k for k in d if k not in ("p", "x", "_p", "calls", "y", "z"))
         seen.append(out + [enc_opt(d.get("p", ABSENT)), d.get("x", -77), enc_opt(d.get("_p", ABSENT)),
                            d.get("calls", -77)] + ([-98] if extra or not class_read_ok else []))
     return seen
@@ -215,7 +247,7 @@ def c_op(op):
 
 def c_case_sp(case, seen):
     cfg, owner, sid, did, pid, x0, ops = case
-    return (f"mkcase {c_cfg(cfg)} {C_OWNER[owner]} {sid} {did} {pid} {cz(x0)} "
+    return (f"mkcase {c_cfg(cfg)} {C_OWNER[owner.partition('+')[0]]} {sid} {did} {pid} {cz(x0)} "
             f"{clist(ops, c_op)} {clist(seen, czlist)}")
 
 
@@ -499,6 +531,49 @@ def gen_sp(rng, tier):
         ln = maxlen if rng.random() < 0.7 else rng.randint(1, maxlen)
         ops = [full_op(rng) for _ in range(ln)]
         cases.append(((cfg, owner, rng.randrange(2), rng.randrange(2), pid, rng.choice(NORMAL_X + FULL_X), ops), "rand"))
+    cases += gen_sp_layouts(rng, tier)
+    return cases
+
+
+LAYOUTS = ["mixin", "parent", "sub", "plainsub", "deep"]
+
+
+def gen_sp_layouts(rng, tier):
+    """round G (seeded change C12-G1): the descriptor is DEFINED on a class that does not manage the
+    attribute (plain mix-in / parent spec class without the annotation) and MANAGED (annotation +
+    preparer) only by the spec subclass whose instance is used; neighbours: instance of a (spec or
+    plain) subclass of the managing class.  Expected behaviour = that of the owner kind (model unchanged)."""
+    quick = tier == "quick"
+    cases = []
+    L = 3 if quick else 4
+    # (c) all 16 flag combinations x {mix-in, unmanaging spec parent} x preparer {v+1 (to be prepared),
+    #     int -> str (ill-typed after preparation: the read must raise TypeError and cache nothing)}
+    #     + no preparer with the falsy alphabet, every sequence of length L
+    kinds = [("managed+mixin", 1, CORE_TRUTHY), ("managed+parent", 1, CORE_TRUTHY),
+             ("managed+mixin", 2, CORE_TRUTHY), ("managed+parent", 2, CORE_ZERO),
+             ("managed_inval+parent", 1, CORE_TRUTHY), ("managed+deep", 1, CORE_TRUTHY)]
+    if not quick:
+        kinds += [("managed_inval+mixin", 2, CORE_TRUTHY), ("managed+sub", 1, CORE_TRUTHY), ("managed+plainsub", 1, CORE_TRUTHY),
+                  ("unmanaged+mixin", 0, CORE_NONE), ("unmanaged+parent", 0, CORE_NONE)]
+    for fl in FLAGS16:
+        for owner, pid, alphabet in kinds:
+            for seq in itertools.product(alphabet, repeat=L):
+                cases.append(((fl + (1, 1), owner, 0, 0, pid, 0, list(seq)), "layout-exh"))
+    # (d) sampled over every owner kind x layout and the full pools (getter returning ill-typed
+    #     strings / None / sentinels, raising getter / preparer, fget absent, custom setter / deleter)
+    n = 3000 if quick else 30000
+    maxlen = 4 if quick else 7
+    for i in range(n):
+        fl = FLAGS16[i % 16]
+        base = OWNERS[1:][(i // 16) % 4] if rng.random() < 0.25 else rng.choice(["managed", "managed_inval"])
+        layout = LAYOUTS[(i // 64) % 5] if rng.random() < 0.4 else rng.choice(["mixin", "parent"])
+        cfg = fl + (0 if rng.random() < 0.06 else 1, 0 if rng.random() < 0.3 else 1)
+        pid = rng.randrange(4) if base.startswith("managed") else 0
+        ln = maxlen if rng.random() < 0.7 else rng.randint(1, maxlen)
+        ops = [full_op(rng) for _ in range(ln)]
+        if rng.random() < 0.5:      # make sure the getter result is observed: a read after at most one other operation
+            ops[min(1, len(ops) - 1)] = ("Read",)
+        cases.append(((cfg, base + "+" + layout, rng.randrange(2), rng.randrange(2), pid, rng.choice(NORMAL_X + FULL_X), ops), "layout-rand"))
     return cases
 
 
@@ -622,6 +697,21 @@ def gen_cp(rng, tier):
                 seqs = seqs[rng.randrange(3)::3] + list(itertools.product(core, repeat=2))
             for seq in seqs:
                 cases.append(((fl + (1, 1), shape, 0, 0, 0, list(seq)), "exh"))
+    # (a') round G (seeded change C12-G2): NO getter (`classproperty(None, ...)`, a pure class-level
+    #     override / setter slot): all 32 flag combinations x both shapes x {assign through one class,
+    #     [delete through one,] read through every class and instance}; a stored override must be
+    #     served although there is no getter, per hierarchy or per subclass
+    assigns = [("Assign", 0, ("I", 0)), ("Assign", 1, ("N",)), ("Assign", 2, ("I", 12))]
+    reads = [("ReadC", k) for k in range(3)] + [("ReadI", k) for k in range(3)]
+    nog = [[a, r] for a in assigns for r in reads]
+    nog += [[a, ("Delete", k), r] for a in assigns for k in range(3) for r in (("ReadC", a[1]), ("ReadI", (a[1] + 1) % 3))]
+    nog += [[a, b, r] for a in assigns for b in assigns if a[1] != b[1] for r in (("ReadC", a[1]), ("ReadI", b[1]))]
+    if not quick:
+        nog += [[r0, a, ("Poke", 1, 7), r] for r0 in reads[:2] for a in assigns for r in reads]
+    for fl in flags32:
+        for shape in (0, 1):
+            for seq in nog:
+                cases.append(((fl + (0, 1), shape, 0, 0, 0, list(seq)), "nogetter"))
     # (b) sampled longer sequences with pools
     n = 8000 if quick else 50000
     maxlen = 4 if quick else 7
